@@ -68,9 +68,20 @@ Definition judge_a (c : acase) : bool :=
   | _, _ => false
   end.
 
-Inductive anycase := CB (c : bcase) | CS (c : scase) | CJ (c : jcase) | CC (c : ccase) | CA (c : acase) | CR (c : rcase) | CF (c : fcase).
+(* C03: nested array parameters *)
+Record ncase := { na_param : nparam; na_raws : list str; na_has_key : bool; na_reached : bool; na_values : option (list nvalue) }.
+Fixpoint nvalues_eqb (a b : list nvalue) : bool :=
+  match a, b with [], [] => true | x :: r, y :: r' => nvalue_eqb x y && nvalues_eqb r r' | _, _ => false end.
+Definition judge_n (c : ncase) : bool :=
+  match bind_nested (na_param c) (na_raws c) (na_has_key c) with
+  | NReject => negb (na_reached c)
+  | NAbsent => na_reached c && match na_values c with None | Some [] => true | Some _ => false end
+  | NBound vs => na_reached c && match na_values c with Some ws => nvalues_eqb vs ws | None => match vs with [] => true | _ => false end end
+  end.
+
+Inductive anycase := CB (c : bcase) | CS (c : scase) | CJ (c : jcase) | CC (c : ccase) | CA (c : acase) | CR (c : rcase) | CF (c : fcase) | CN (c : ncase).
 Definition judge (c : anycase) : bool :=
-  match c with CB x => judge_b x | CS x => judge_s x | CJ x => judge_j x | CC x => judge_c x | CA x => judge_a x | CR x => judge_r x | CF x => judge_f x end.
+  match c with CB x => judge_b x | CS x => judge_s x | CJ x => judge_j x | CC x => judge_c x | CA x => judge_a x | CR x => judge_r x | CF x => judge_f x | CN x => judge_n x end.
 Fixpoint run_from (i : nat) (cs : list anycase) : list nat :=
   match cs with [] => [] | c :: r => if judge c then run_from (S i) r else i :: run_from (S i) r end.
 Definition run_cases (cs : list anycase) := run_from 0 cs.
